@@ -378,26 +378,27 @@ package dt
 // mutex (or nil) holding it, and initialises the hash index if needed; with(m)
 // releases it.
 //@ func (*Set).lock
-//@   props C18
+//@   props C18 C13
 //@   trusted optional mutex behind atomic.Value (outside the modelled subset)
 //@   requires s != nil
 //@   modifies s.hash
 //@   ensures s.hash != nil && (old(s.hash) != nil ==> s.hash == old(s.hash)) && (old(s.hash) == nil ==> fresh(s.hash) && len(s.hash) == 0 && (forall k: int :: !haskey(s.hash, k)))
 //@   ensures result != nil ==> held(result)
+//@   ensures result == smutex(s.mtx)
 
 //@ func (*Set).with
-//@   props C18
+//@   props C18 C13
 //@   trusted releases the optional mutex (ft.WhenCall(m != nil, m.Unlock))
 //@   ensures m != nil ==> !held(m)
 
 //@ func (*Set).Len
-//@   props C18
+//@   props C18 C13
 //@   requires setpre(s)
 //@   modifies s.hash
 //@   ensures result == len(s.hash) && (old(s.hash) == nil ==> result == 0) && setinv(s)
 
 //@ func (*Set).Check
-//@   props C18
+//@   props C18 C13
 //@   requires setpre(s)
 //@   modifies s.hash
 //@   ensures result == haskey(s.hash, in) && (old(s.hash) == nil ==> !result) && (old(s.hash) != nil ==> result == old(haskey(s.hash, in))) && setinv(s)
@@ -406,7 +407,7 @@ package dt
 // no other membership changes; a new member of an ordered set goes to the end
 // of the order, re-adding a present value does not move it.
 //@ func (*Set).AddCheck
-//@   props C18
+//@   props C18 C13
 //@   requires setpre(s)
 //@   modifies s.hash, mapelems(s.hash), s.list.root, List.length, Element.list, Element.next, Element.prev, List.elems, List.lastIns, Element.idx
 //@   ensures setinv(s) && haskey(s.hash, in)
@@ -420,7 +421,7 @@ package dt
 // no other membership changes; in an ordered set the value's element leaves
 // the order and every other element keeps its relative position.
 //@ func (*Set).DeleteCheck
-//@   props C18
+//@   props C18 C13
 //@   requires setpre(s)
 //@   modifies s.hash, mapelems(s.hash), List.length, Element.list, Element.next, Element.prev, List.elems, List.lastIns, Element.idx
 //@   ensures setinv(s) && !haskey(s.hash, in)
@@ -491,7 +492,8 @@ package dt
 // ---------------------------------------------------------------------------
 
 //@ func (*Set).forceSetupOrdered
-//@   props C18
+//@   props C18 C13
+//@   requires smutex(s.mtx) == nil || held(smutex(s.mtx))
 //@   requires s != nil && s.hash != nil && s.list == nil && (forall k: int :: haskey(s.hash, k) ==> s.hash[k] == nil)
 //@   modifies s.list, s.hash, List.root, List.length, Element.list, Element.next, Element.prev, List.elems, List.lastIns, Element.idx
 //@   ensures setinv(s) && s.list != nil && fresh(s.list)
@@ -509,7 +511,7 @@ package dt
 // links no element that did not exist before" through the recursion, which
 // did not discharge; SortMerge therefore only establishes setcore.
 //@ func (*Set).SortQuick
-//@   props C18
+//@   props C18 C13
 //@   requires setpre(s) && lt != nil
 //@   modifies s.hash, s.list, mapelems(s.hash), List.root, List.length, Element.list, Element.next, Element.prev, List.elems, List.lastIns, Element.idx
 //@   ensures setinv(s) && s.list != nil
@@ -518,7 +520,7 @@ package dt
 //@   ensures sorted: forall p: int, q: int :: 0 <= p && p < q && q < len(s.list.elems) ==> !apply(lt, cast(s.list.elems[q], "*Element").item, cast(s.list.elems[p], "*Element").item)
 
 //@ func (*Set).SortMerge
-//@   props C18
+//@   props C18 C13
 //@   requires setpre(s) && lt != nil && swo(lt)
 //@   modifies s.hash, s.list, mapelems(s.hash), List.root, List.length, Element.list, Element.next, Element.prev, List.elems, List.lastIns, Element.idx
 //@   ensures setcore(s) && s.list != nil
@@ -533,6 +535,9 @@ package dt
 // returns it (atomic.Value behind a generic type switch is outside the subset).
 // ---------------------------------------------------------------------------
 //@ ufun smutex(ref) ref
+// the index and the order list of a synchronized set are only touched with its
+// mutex held (no mutex: the set is not shared)
+//@ guarded Set.{hash,list} by optional:smutex(mtx)
 
 //@ func (*atomic).Get
 //@   props C13 C18
